@@ -154,10 +154,10 @@ def _triplet_summary(resolution, note_duration):
     return (resolution + 1) // 3
 
 
-def hopo_state(pi: int, R: int, prev_tick: int, gap: int, tap: bool, forced: bool, first: bool) -> bool:
+def hopo_state(pi: int, R: int, prev_tick: int, gap: int, tap: bool, forced: bool, first: bool, psus: int = 0) -> bool:
     """
     pre: 0 <= pi < len(PAIRS)
-    pre: R >= 1 and prev_tick >= 0 and gap >= 1
+    pre: R >= 1 and prev_tick >= 0 and gap >= 1 and psus >= 0
     post: _
     """
     note, pnote = PAIRS[pi]
@@ -165,7 +165,7 @@ def hopo_state(pi: int, R: int, prev_tick: int, gap: int, tap: bool, forced: boo
     prev = None
     if not first:
         prev = NoteEvent(tick=prev_tick, timestamp=AbsTime(0), end_timestamp=AbsTime(0),
-                         note=pnote, hopo_state=HOPOState.STRUM)
+                         note=pnote, hopo_state=HOPOState.STRUM, sustain=psus)      # the rule is start-to-start
     with H.patched((chartparse.tick, "note_duration_to_ticks", _triplet_summary)):
         try:
             got = NoteEvent._compute_hopo_state(R, tick, note, tap, forced, prev)
